@@ -44,6 +44,9 @@ CFG = {
             "(no packet: NoSignatureFound; a DSA packet: UnsupportedPGPKeyType) — after each the state must be what it was; instants outside 0..2^32 "
             "(the unwrap panics before the signer is asked: observed `P:<op>`, predicted by the model, judged dontcare — the property speaks of valid "
             "operations; same defect class as the known finding C17 timestamp-setter-panic, label `tsoutofrange(timestamp-setter-panic)`). "
+            "Step W = Package::write_file to a fresh path + Package::open of that file (the other sink / source kind of write + re-parse): from every start a,W / W,a for a in "
+            "{sR,sP,sE,sC,c}, a,W,b (a rotating fifth in quick, all 25 in thorough) and 11 fixed histories (W,W; sE,W,sC,W; sP,W,w; nE,W; sE,xP,W ...); the model computes it through "
+            "Io.writeFile 8192 (BufWriter around an accepting file) and Io.parseChunked under 8192-byte chunks (equal to writeParse by C14.write_file_then_open). "
             "Four more start packages (latin1, noncanon, swapped, extratag): the built package with a main header that is valid but not what the library "
             "itself lays out (non-UTF-8 byte in a string; slack bytes after the store; data of two entries swapped; an extra tag below 1000), which a "
             "sign / clear that re-built the main header would silently rewrite. Table ties: sgbuild / sgnew / vfload for every algorithm number 0..255 "
